@@ -271,6 +271,72 @@ def check_bits(res, facts):
             rule.bad("anchor|%s" % k, "anchor missing")
 
 
+# ---- R-GLVDECOMP ------------------------------------------------------------------------------------------
+
+def check_glvdecomp(res, facts):
+    """GLV scalar decomposition: (k1, k2) = (k, 0) - (beta1, beta2) * N with N = [[n11, n12], [n21, n22]].  For ANY integers
+    beta this satisfies k1 + lambda*k2 = k - beta1 (n11 + lambda n12) - beta2 (n21 + lambda n22), and the two brackets vanish
+    mod r because the rows of N are lattice vectors (checked per configuration under C16).  Decided here: the polynomial
+    identity, with beta1, beta2, k, n_ij, lambda as indeterminates, on the reconstructed expressions of k1 and k2; and that
+    beta1, beta2 are the rounded quotients of k*n22 and -k*n12 by r."""
+    from rules.c07 import E, show, qeq
+    from rules.c17 import to_q, NotPoly
+    from arklib.poly import Q
+    rule = res.rule("R-GLVDECOMP", "GLV decomposition: k1 + lambda*k2 - k = -beta1 (n11 + lambda n12) - beta2 (n21 + lambda n22) identically", 1)
+    fs = [f for f in facts.fns(unit="ws", crate="ark_ec") if f.kind != "Closure" and f.id.endswith("GLVConfig::scalar_decomposition")]
+    key = "ark_ec|GLVConfig::scalar_decomposition"
+    if not fs:
+        rule.bad(key, "anchor missing")
+        return
+    f = fs[0]
+    absargs = [(bb, E(f, t["args"][0])) for bb, t in f.calls() if t["f"].get("name") == "abs" and not t.get("mac")]
+    if len(absargs) != 2:
+        rule.undecided(key, "expected |k1| and |k2| to be taken from two expressions, found %d" % len(absargs), f.loc)
+        return
+    betas = {}
+
+    def leaf(t):
+        if t == ("call", "into_bigint", (("arg", 1, ()),)):
+            return "k"
+        if isinstance(t, tuple) and t[0] == "call" and t[1] == "map" and len(t) > 3 and len(t[3]) == 1 and isinstance(t[3][0], tuple) and t[3][0][0] == "cidx":
+            return "n%d" % t[3][0][1]
+        if isinstance(t, tuple) and t[0] == "call" and t[1] == "div_rem" and len(t) > 3 and t[3] == ("0",):
+            num = show(t[2][0])
+            nm = "beta1" if "[3]" in num and "[1]" not in num else ("beta2" if "[1]" in num and "[3]" not in num else "beta?%d" % len(betas))
+            betas[nm] = t
+            return nm
+        return None
+    try:
+        k1 = to_q(absargs[0][1], leaf)
+        k2 = to_q(absargs[1][1], leaf)
+    except NotPoly as e:
+        rule.undecided(key, "k1 / k2 are not polynomial expressions of the lattice constants (%s)" % e, f.loc)
+        return
+    lam, k = Q.var("lambda"), Q.var("k")
+    n = [Q.var("n%d" % i) for i in range(4)]
+    b1, b2 = Q.var("beta1"), Q.var("beta2")
+    resid = k1 + lam * k2 - k + b1 * (n[0] + lam * n[1]) + b2 * (n[2] + lam * n[3])
+    problems = []
+    if not resid.is_zero():
+        problems.append("k1 + lambda*k2 - k + beta1 (n11 + lambda n12) + beta2 (n21 + lambda n22) = %s is not identically zero: the decomposition does not satisfy k = k1 + lambda*k2 (mod r) for bases with beta2 != 0 / general lattice bases" % str(resid)[:200])
+    # the rounded quotients
+    want1 = ("call", "mul", (("call", "into_bigint", (("arg", 1, ()),)),))
+    b1t, b2t = betas.get("beta1"), betas.get("beta2")
+    if b1t is None or b2t is None:
+        problems.append("beta1 = round(k*n22/r) and beta2 = round(-k*n12/r) not both found (found %s)" % sorted(betas))
+    else:
+        for nm, bt, want_n, negd in (("beta1", b1t, "n3", False), ("beta2", b2t, "n1", True)):
+            num, den = bt[2][0], bt[2][1]
+            try:
+                qn = to_q(num, leaf)
+            except NotPoly:
+                qn = None
+            wantq = k * Q.var(want_n) * (Q.const(-1) if negd else Q.const(1))
+            if qn is None or not qeq(qn, wantq) or den != "MODULUS":
+                problems.append("%s is the quotient of %s by %s, expected %s / r" % (nm, show(num)[:80], show(den)[:30], wantq))
+    (rule.bad if problems else rule.ok)(key, "; ".join(problems) if problems else "k1 = k - beta1 n11 - beta2 n21, k2 = -(beta1 n12 + beta2 n22), beta1 = round(k n22 / r), beta2 = round(-k n12 / r)", f.loc)
+
+
 def run(ctx, res):
     facts = ctx.facts(UNITS)
     res.analysed = facts.stats()
@@ -278,6 +344,7 @@ def run(ctx, res):
     check_rawscalar(res, facts)
     check_wnaf(res, facts)
     check_bits(res, facts)
+    check_glvdecomp(res, facts)
     return {
         "level": "other",
         "explanation": "Loop-recurrence typing and dataflow rules over the MIR of ark-ec / ark-ff scalar multiplication and exponentiation loops and of every curve crate's overrides of the raw-limb entry points; GLV constants and lattice bases are decided exhaustively under C16. Does NOT decide equality of any path's result with k*P, correctness of wNAF digits (C15) or table sizing at run time.",
